@@ -396,6 +396,10 @@ def message_text(ana: Analysis, fi: FuncInfo, expr) -> str:
         for c in ast.walk(e):
             if isinstance(c, ast.Constant) and isinstance(c.value, str):
                 out.append(c.value)
+            elif isinstance(c, ast.Attribute) and c.attr in ("__name__", "__qualname__") and isinstance(c.value, (ast.Name, ast.Attribute)):
+                r_ = ana.res.fq_of_expr(fi, c.value)
+                if r_ and r_[1].rsplit(".", 1)[-1] and r_[1] in ana.prog.functions:
+                    out.append(r_[1].rsplit(".", 1)[-1])          # `{ticc_joint_labels.__name__}` spells the function's name
             elif isinstance(c, ast.Name) and isinstance(c.ctx, ast.Load) and c.id not in seen and depth < 3:
                 seen.add(c.id)
                 for st in ast.walk(fi.node):
